@@ -21,20 +21,20 @@ constexpr long double kSlackSteadyNs = 2.0L;
 // two clocks is not under dispenso's control (DESIGN C20: 1 ms tolerance, recorded as assumption).
 constexpr long double kSlackSystemNs = 1e6L;
 
-enum Script : int { kE0Timeout, kE1Race, kE2LongEarly, kE3EagainEvent, kF0NotStartedND, kF1NotStartedD, kF2Running, kF3EagainFuture, kF4AsyncFn, kF5ThenPolicy, kNumScripts };
+enum Script : int { kE0Timeout, kE1Race, kE2LongEarly, kE3EagainEvent, kF0NotStartedND, kF1NotStartedD, kF2Running, kF3EagainFuture, kF4AsyncFn, kF5ThenPolicy, kF6MaxTimeout, kNumScripts };
 const char* const kScriptNames[] = {"event-timeout", "event-notify-race", "event-long-early-notify", "event-notify-before-futex", "future-notstarted-nondeferred", "future-notstarted-deferred", "future-running",
-                                    "future-start-before-futex", "deferred-clause", "then-deferred-clause"};
+                                    "future-start-before-futex", "deferred-clause", "then-deferred-clause", "deferred-clause-max-timeout"};
 
 struct TSpec {
   long long ns = 0; // requested relative time
   int rep = 0; // representation used for waitFor
   bool until = false;
   int clock = 0; // 0 steady/ns, 1 system/ns, 2 steady/ms time_point
-  int special = 0; // 1 seconds::max, 2 hours::max, 3 double 1e30 s, 4 time_point::max, 5 1 h, 6 30 days
+  int special = 0; // 1 seconds::max, 2 hours::max, 3 double 1e30 s, 4 steady time_point::max, 5 1 h, 6 30 days, 7 milliseconds::max, 8 system time_point::max
   J json() const {
     static const char* rn[] = {"ns", "us", "ms", "double-s", "float-ms", "int32-us", "long-100us"};
     static const char* cn[] = {"steady", "system", "steady-ms"};
-    static const char* sn[] = {"", "seconds::max", "hours::max", "1e30s", "time_point::max", "1h", "30d"};
+    static const char* sn[] = {"", "seconds::max", "hours::max", "1e30s", "time_point::max", "1h", "30d", "milliseconds::max", "system time_point::max"};
     J j;
     j.kv("ns", ns).kv("api", until ? "until" : "for");
     if (until) j.kv("clock", cn[clock]);
@@ -43,7 +43,7 @@ struct TSpec {
     return j;
   }
   const char* cls() const {
-    if (special >= 5) return "long";
+    if (special == 5 || special == 6) return "long";
     if (special) return "huge";
     if (ns == 0) return "zero";
     if (ns < 0) return "negative";
@@ -134,6 +134,8 @@ Meas timedCall(W& w, const TSpec& t) {
       case 3: m = doFor(w, ch::duration<double>(1e30)); break;
       case 4: m = doUntil(w, Steady::time_point::max(), 0); break;
       case 5: m = t.until ? doUntil(w, Steady::now() + ch::hours(1), 0) : doFor(w, ch::hours(1)); break;
+      case 7: m = doFor(w, ch::milliseconds::max()); break;
+      case 8: m = doUntil(w, SysClock::time_point::max(), 1); break;
       default: m = t.until ? doUntil(w, SysClock::now() + ch::hours(24 * 30), 1) : doFor(w, ch::hours(24 * 30)); break;
     }
   } else if (t.until) {
@@ -165,7 +167,7 @@ struct Spec {
   bool spurious = false, prewait = false;
   int deltaUs = 0; // E1: notify at timeout + delta
   int dwellUs = 0; // F2
-  int afterUs = 0; // E2: notify after
+  int afterUs = 0; // E2: notify after; F6: complete the future after
   // F4 / F5
   int creation = 0; // 0 constructor, 1 dispenso::async
   int sched = 0;
@@ -180,7 +182,7 @@ struct Spec {
     j.kv("perturb", perturb).kv("spurious", spurious).kv("prewait", prewait);
     if (script == kE1Race) j.kv("deltaUs", deltaUs);
     if (script == kF2Running) j.kv("dwellUs", dwellUs);
-    if (script == kE2LongEarly) j.kv("afterUs", afterUs);
+    if (script == kE2LongEarly || script == kF6MaxTimeout) j.kv("afterUs", afterUs);
     if (script >= kF4AsyncFn) j.kv("creation", creation ? "async()" : "ctor").kv("sched", schedName(sched)).kv("policy", policy).kv("pool", pool);
     return j;
   }
@@ -374,7 +376,7 @@ void runFuture(const Spec& s, Ctx& c, Outcome& out) {
   {
     dispenso::Future<long> f, cf;
     const bool policyDeferred = (s.policy & 2) != 0;
-    if (s.script == kF4AsyncFn) {
+    if (s.script == kF4AsyncFn || s.script == kF6MaxTimeout) {
       if (s.sched <= kSCTaskSet) {
         pool.reset(new dispenso::ThreadPool(static_cast<size_t>(s.pool)));
         gate.block(*pool, s.pool);
@@ -464,6 +466,18 @@ void runFuture(const Spec& s, Ctx& c, Outcome& out) {
           usleep(10);
         }
       }
+      if (s.script == kF6MaxTimeout) {
+        // the waits below only end when the future completes: another thread completes it after a while
+        runner = std::thread([&c, &s, &gate, &manual]() {
+          RoleScope role(kRoleRunner);
+          while (!c.go.load(std::memory_order_relaxed)) {
+            sched_yield();
+          }
+          usleep(static_cast<unsigned>(s.afterUs));
+          gate.release();
+          manual.runPending();
+        });
+      }
       for (int w = 0; w < s.waiters; ++w) th.emplace_back(waiterThread<FutureW>, &c, w, FutureW{&copies[static_cast<size_t>(w)]}, s.t[w], false);
       releaseWaiters(c, s.waiters);
       for (auto& t : th) t.join();
@@ -497,6 +511,7 @@ void runFuture(const Spec& s, Ctx& c, Outcome& out) {
     vrt::violation("a continuation future created with kNotDeferred was executed by a thread inside wait_for/wait_until", J().kv("spec", s.json()), "inline-run");
   }
   if (c.ranInTimed.load()) out.cls.push_back("timed-wait-ran-functor");
+  if (s.script == kF6MaxTimeout && !(s.policy & 2)) out.cls.push_back("deferred-clause:max-timeout");
   if (s.script == kF4AsyncFn || s.script == kF5ThenPolicy || s.script == kF0NotStartedND) {
     bool forbidden = s.script == kF0NotStartedND || !(s.policy & 2);
     if (forbidden && s.sched != kSNewThread) out.cls.push_back("inline-forbidden-and-not-started");
@@ -507,7 +522,7 @@ Spec gen(vrt::Rng& r, long idx) {
   Spec s;
   const bool th = vrt::thorough();
   uint64_t x = r.below(100);
-  s.script = x < 24 ? kE0Timeout : x < 39 ? kE1Race : x < 47 ? kE2LongEarly : x < 49 ? kE3EagainEvent : x < 59 ? kF0NotStartedND : x < 66 ? kF1NotStartedD : x < 79 ? kF2Running : x < 81 ? kF3EagainFuture : x < 95 ? kF4AsyncFn : kF5ThenPolicy;
+  s.script = x < 24 ? kE0Timeout : x < 39 ? kE1Race : x < 47 ? kE2LongEarly : x < 49 ? kE3EagainEvent : x < 59 ? kF0NotStartedND : x < 66 ? kF1NotStartedD : x < 79 ? kF2Running : x < 81 ? kF3EagainFuture : x < 91 ? kF4AsyncFn : x < 95 ? kF6MaxTimeout : kF5ThenPolicy;
   if (idx < kNumScripts) s.script = static_cast<int>(idx); // every script at least once per run
   s.waiters = static_cast<int>(r.range(1, 3));
   bool allowLong = th || r.chance(0.5);
@@ -574,6 +589,29 @@ Spec gen(vrt::Rng& r, long idx) {
       }
       break;
     }
+    case kF6MaxTimeout: {
+      // non-started futures waited on with exactly Rep::max() / time_point::max(); mostly without the
+      // deferred bit (the functor must then be left to the pool / the manual runner)
+      s.creation = static_cast<int>(r.below(2));
+      static const int sc0[] = {kSPool, kSTaskSet, kSCTaskSet, kSManual};
+      static const int sc1[] = {kSPool, kSTaskSet, kSCTaskSet};
+      s.sched = s.creation ? sc1[r.below(3)] : sc0[r.below(4)];
+      if (r.chance(0.8)) s.policy &= 1;
+      s.waiters = static_cast<int>(r.range(1, 2));
+      s.afterUs = static_cast<int>(r.range(20000, 50000));
+      s.spurious = r.chance(0.3);
+      bool ub = vrt::g_args.getInt("huge", (vrt::g_args.config == "plain" || vrt::g_args.config == "tsan") ? 1 : 0) != 0;
+      for (int i = 0; i < 3; ++i) {
+        s.t[i] = TSpec();
+        static const int safe[] = {7, 4, 8};
+        static const int all[] = {7, 4, 8, 1, 2};
+        int sp = ub ? all[r.below(5)] : safe[r.below(3)];
+        s.t[i].special = sp;
+        s.t[i].until = sp == 4 || sp == 8;
+        s.t[i].clock = sp == 8 ? 1 : 0;
+      }
+      break;
+    }
     case kF5ThenPolicy: {
       static const int sc[] = {kSPool, kSNewThread, kSImmediate};
       s.sched = sc[r.below(3)];
@@ -589,7 +627,7 @@ Spec gen(vrt::Rng& r, long idx) {
 
 std::string keyOf(const Spec& s) {
   std::string k = kScriptNames[s.script];
-  if (s.script == kF4AsyncFn || s.script == kF5ThenPolicy) {
+  if (s.script == kF4AsyncFn || s.script == kF5ThenPolicy || s.script == kF6MaxTimeout) {
     static const char* pn[] = {"policy=none", "policy=async", "policy=deferred", "policy=async+deferred"};
     k += std::string("/") + (s.creation ? "async-fn" : (s.script == kF5ThenPolicy ? "then" : "ctor")) + "/" + schedName(s.sched) + "/" + pn[s.policy];
   } else {
